@@ -41,6 +41,8 @@ CLAIMS = {
  "C15": ("proof", "Theorems: hits = buffered + AccessAdded + AccessDropped (mod 2^64) at every reachable running state for every pool/buffer size and index oracle; hand-over is all-or-nothing; reads are never parked or disabled whatever the channel/consumer state; a batch is applied whole. " + TIE,
          "partial: 'never blocks' is enabledness in the model; crossbeam select!{send, default} is exercised with a gated and an exited consumer. Reads are atomic events in the model (the in-flight window between the hit counter and the buffer push is not split). " + TRUST, "Coq invariant proof + differential correspondence"),
  "C16": ("proof", "Theorems: KeysAdded-KeysDeleted = keys held and WeightAdded-WeightRemoved = total (mod 2^64) at every reachable state; hits+misses grows by the lookups of each event; KeysRejected counts exactly admission refusals; hit ratio = hits/(hits+misses), zero only without hits. " + TIE, TRUST, "Coq invariant proof + differential correspondence"),
+ "C17": ("proof", "Theorems: from a state satisfying the core invariant, a valid event outside four identified classes neither panics in the caller nor kills the worker, sweeper or consumer (valid_calls_never_panic), along whole runs (valid_runs_never_panic), and the cache keeps serving (still_serves); the four classes (remove-TTL on a small weight, TTL overflow, UpdateWeight overflow, upsert-as-put without value) are proved witnesses / documented preconditions. " + TIE + " Boundary-biased generators: weights up to i64::MAX, TTL up to Duration::MAX, counters 1.., queue/pool/buffer 1; the model must predict a panic exactly where the implementation panics.",
+         "partial: covers the panic sites the model represents (assert!, unwrap/expect, index operations, i64 overflow under the debug profile, SystemTime addition); allocation failure, thread spawn failure and panics inside dependencies are not modelled. " + TRUST, "Coq proof (case analysis under the invariant) + differential correspondence"),
 }
 
 checks = []
